@@ -7,11 +7,12 @@ TmMats == { <<12,0,0,12,10,20>>, <<0,1,-1,0,30,40>>, <<1,0,1,1,0,0>> }
 
 O(n, a) == [op |-> n, a |-> a]
 
-\* 21 operators: the quick/thorough exhaustive alphabet
+\* 22 operators: the quick/thorough exhaustive alphabet
 OpsA == {O("q", <<>>), O("Q", <<>>), O("BT", <<>>), O("ET", <<>>), O("T*", <<>>),
          O("Tj", <<>>), O("'", <<>>), O("dq", <<1, 2>>),
          O("Td", <<10, 10>>), O("Td", <<0, -2>>), O("TD", <<3, -4>>),
          O("TL", <<14>>), O("Tf", <<2>>), O("Do", <<1,0,0,2,5,0>>),
+         O("'e", <<>>),         \* () ' : a blank line
          O("Tz", <<150>>)}      \* glyph stretching: origin and reported size do not depend on it
         \cup {O("cm", m) : m \in CmMats} \cup {O("Tm", m) : m \in TmMats}
 
@@ -24,7 +25,7 @@ OpsB == {O("q", <<>>), O("Q", <<>>), O("BT", <<>>), O("ET", <<>>), O("T*", <<>>)
          O("Tj", <<>>), O("'", <<>>), O("dq", <<1, 2>>), O("dq", <<0, 0>>),
          O("TL", <<14>>), O("TL", <<-3>>), O("Tf", <<2>>), O("Tf", <<12>>), O("Tf", <<1>>),
          O("Tc", <<1>>), O("Tw", <<2>>), O("Tz", <<50>>), O("Tz", <<100>>), O("Tz", <<150>>), O("Tz", <<200>>), O("Tz", <<25>>),
-         O("Tc", <<-2>>), O("Tw", <<7>>),
+         O("Tc", <<-2>>), O("Tw", <<7>>), O("'e", <<>>), O("dqe", <<1, 2>>),
          O("Do", <<1,0,0,2,5,0>>), O("Do", <<0,1,-1,0,0,9>>)}
         \cup {O("Td", <<x, y>>) : x \in {0, 10, -7}, y \in {0, -2, 10}}
         \cup {O("TD", <<x, y>>) : x \in {0, 3}, y \in {-4, 5}}
